@@ -589,7 +589,7 @@ pub fn check(cfg: &RunCfg, findings: &Findings) -> Report {
     cfg,
     "C17-patterns",
     16,
-    if quick { 40_000 } else { 300_000 },
+    if quick { 120_000 } else { 300_000 },
     32,
     1500,
     |src: &mut Src| {
